@@ -36,6 +36,11 @@ pub enum LinkFault {
     Garbage(u8),
     /// the aliasing attack: the key table files key B under this key's id and B signs, labelled with this id
     AliasedTableEntry(u8),
+    /// replace the evidence by a *valid sub-layout* (signed by, and filed under, a functionary of the key table
+    /// who is not authorised for this step)
+    SubLayoutByUnauthorizedFunctionary(u8),
+    /// the same by a key that is authorised in the step but missing from the key table
+    SubLayoutByKeyMissingFromTable(u8),
 }
 
 #[derive(Clone, Debug, Serialize, Deserialize)]
@@ -125,9 +130,34 @@ pub fn apply_faults(spec: &Spec) -> (World, Option<serde_json::Value>) {
             LinkFault::Garbage(n) => {
                 w.links[i].body = Body::Garbage(GARBAGE[*n as usize % GARBAGE.len()].to_string());
             }
+            LinkFault::SubLayoutByUnauthorizedFunctionary(n) | LinkFault::SubLayoutByKeyMissingFromTable(n) => {
+                let signer = if matches!(fault, LinkFault::SubLayoutByUnauthorizedFunctionary(_)) {
+                    match pick(&unauthorized, *n) {
+                        Some(u) => u,
+                        None => continue,
+                    }
+                } else {
+                    let s = stranger(n.wrapping_add(100));
+                    let sidx = *si as usize % nsteps;
+                    w.layout.steps[sidx].pubkeys.push(s.clone());
+                    s
+                };
+                // a valid inner layout without steps: nothing else could make it fail
+                let inner = World {
+                    layout: LayoutSpec { expires: 4_000_000_000, readme: "delegated".into(), keys: vec![], steps: vec![], inspect: vec![] },
+                    sigs: vec![SigEntry::good(&signer)],
+                    tamper: None,
+                    links: vec![],
+                };
+                w.links[i] = LinkFile { step: step.name.clone(), filed_under: signer, body: Body::Sub { world: Box::new(inner), placement: Placement::Proper } };
+            }
             LinkFault::AliasedTableEntry(n) => {
                 // handled at the wire level: the returned alias instruction rewrites the key table
-                let b = stranger(n.wrapping_add(60));
+                // B must be a different key than the one whose id it is filed under (else the entry is honest)
+                let mut b = stranger(n.wrapping_add(60));
+                if material(&b) == material(&this_key) {
+                    b = stranger(n.wrapping_add(61));
+                }
                 if let Body::Link { sigs, .. } = &mut w.links[i].body {
                     *sigs = vec![SigEntry { signer: b.clone(), label: Some(this_key.clone()), corrupt: None }];
                 }
@@ -179,6 +209,8 @@ fn fault_strategy() -> BoxedStrategy<LinkFault> {
         1 => prop_oneof![any::<u16>().prop_map(Corrupt::BitFlip), Just(Corrupt::Truncate), Just(Corrupt::Empty)].prop_map(LinkFault::Corrupt),
         1 => any::<u8>().prop_map(LinkFault::Garbage),
         2 => any::<u8>().prop_map(LinkFault::AliasedTableEntry),
+        2 => any::<u8>().prop_map(LinkFault::SubLayoutByUnauthorizedFunctionary),
+        1 => any::<u8>().prop_map(LinkFault::SubLayoutByKeyMissingFromTable),
     ]
     .boxed()
 }
@@ -193,7 +225,8 @@ impl Property for C02 {
          1-3 faults on chosen (step, link) files: removed; signed by another functionary but filed under this key's prefix; tampered after \
          signing; replaced by a valid link of a functionary authorised only for other steps; of a key authorised in the step but absent \
          from the key table; of a stranger; multiply signed; signature by another key labelled with this key's id; corrupted signature; \
-         garbage; aliased key-table entry (table files key B under id(A), B signs labelled id(A)). Enumerated: 2 steps x 2 keys, every \
+         garbage; aliased key-table entry (table files key B under id(A), B signs labelled id(A)); evidence replaced by a valid \
+         sub-layout of a functionary who is not authorised for the step / missing from the key table. Enumerated: 2 steps x 2 keys, every \
          (step,key) file in {absent, valid by that key, signed by the other key under this name, tampered, garbage}: 625 populations. \
          Oracle: Ok only if for every step |{k in step.pubkeys and layout.keys : a file step.<prefix(k)>.link has an intact signature by \
          k}| >= max(threshold,1) (ground truth by construction). Non-trivial: the necessary condition is violated for a step that has a \
@@ -297,7 +330,7 @@ impl Property for C02 {
                     .filter(|(si, _, _)| unmet_steps.contains(&spec.world.layout.steps[*si as usize % nsteps].name))
                     .map(|(_, _, f)| format!("{:?}", f).split(|c| c == '(' || c == ' ').next().unwrap_or("").to_string())
                     .collect();
-                let priority = ["ByUnauthorizedFunctionary", "AliasedTableEntry", "ByKeyMissingFromTable", "ByStranger", "Mislabelled", "SignedByOther", "MultiSigned", "Tamper", "Corrupt", "Garbage", "Remove"];
+                let priority = ["SubLayoutByUnauthorizedFunctionary", "SubLayoutByKeyMissingFromTable", "ByUnauthorizedFunctionary", "AliasedTableEntry", "ByKeyMissingFromTable", "ByStranger", "Mislabelled", "SignedByOther", "MultiSigned", "Tamper", "Corrupt", "Garbage", "Remove"];
                 let cause = if spec.faults.is_empty() {
                     "enumerated-population".to_string()
                 } else {
